@@ -323,6 +323,46 @@ impl Drop for Listener {
     }
 }
 
+/// Verification hooks (only with `--cfg varlink_rust_verif`): probe points of the
+/// thread pool and a public wrapper to drive the private pool without sockets.
+#[cfg(varlink_rust_verif)]
+pub mod verif_hooks {
+    use std::sync::{Arc, RwLock};
+
+    /// called with (event name, value) from the acceptor and worker threads; may block
+    pub type Probe = Arc<dyn Fn(&'static str, usize) + Send + Sync>;
+
+    static PROBE: RwLock<Option<Probe>> = RwLock::new(None);
+
+    pub fn set_probe(p: Option<Probe>) {
+        *PROBE.write().unwrap() = p;
+    }
+
+    pub(crate) fn probe(event: &'static str, value: usize) {
+        let p = PROBE.read().unwrap().clone();
+        if let Some(p) = p {
+            p(event, value)
+        }
+    }
+
+    pub struct Pool(super::ThreadPool);
+
+    impl Pool {
+        pub fn new(initial_worker: usize, max_workers: usize) -> Pool {
+            Pool(super::ThreadPool::new(initial_worker, max_workers))
+        }
+        pub fn execute<F: FnOnce() + Send + 'static>(&mut self, f: F) {
+            self.0.execute(f)
+        }
+        pub fn num_busy(&self) -> usize {
+            self.0.num_busy()
+        }
+        pub fn num_workers(&self) -> usize {
+            self.0.workers.len()
+        }
+    }
+}
+
 enum Message {
     NewJob(Job),
     Terminate,
@@ -386,13 +426,19 @@ impl ThreadPool {
     {
         let job = Box::new(f);
         self.sender.send(Message::NewJob(job)).unwrap();
+        #[cfg(varlink_rust_verif)]
+        verif_hooks::probe("enqueued", self.num_busy());
         if ((self.num_busy() + 1) >= self.workers.len()) && (self.workers.len() <= self.max_workers)
         {
             self.workers.push(Worker::new(
                 Arc::clone(&self.receiver),
                 Arc::clone(&self.num_busy),
             ));
+            #[cfg(varlink_rust_verif)]
+            verif_hooks::probe("worker-spawned", self.workers.len());
         }
+        #[cfg(varlink_rust_verif)]
+        verif_hooks::probe("execute-done", self.workers.len());
     }
 
     pub fn num_busy(&self) -> usize {
@@ -426,17 +472,27 @@ impl Worker {
 
             match message {
                 Message::NewJob(job) => {
+                    #[cfg(varlink_rust_verif)]
+                    verif_hooks::probe("dequeued", 0);
                     {
                         let mut num_busy = num_busy.write().unwrap();
                         *num_busy += 1;
                     }
+                    #[cfg(varlink_rust_verif)]
+                    verif_hooks::probe("busy-inc", 0);
                     job.call_box();
+                    #[cfg(varlink_rust_verif)]
+                    verif_hooks::probe("job-done", 0);
                     {
                         let mut num_busy = num_busy.write().unwrap();
                         *num_busy -= 1;
                     }
+                    #[cfg(varlink_rust_verif)]
+                    verif_hooks::probe("busy-dec", 0);
                 }
                 Message::Terminate => {
+                    #[cfg(varlink_rust_verif)]
+                    verif_hooks::probe("terminate", 0);
                     break;
                 }
             }
